@@ -1,2 +1,20 @@
 // property C13, harness c13::asn_set_collect_len2
 // failed: "set iterator not strictly ascending" @ src/c13.rs
+// native replay: dev: panic: src/c13.rs:387:13: set iterator not strictly ascending; release: panic: src/c13.rs:387:13: set iterator not strictly ascending
+// run: cd /verif && ./replay /verif/replays/C13-asn_set_collect_len2.rs
+/// Test generated for harness `c13::asn_set_collect_len2` 
+///
+/// Check for `assertion`: ""set iterator not strictly ascending""
+
+#[test]
+fn kani_concrete_playback_asn_set_collect_len2_4093204768411610771() {
+    let concrete_vals: Vec<Vec<u8>> = vec![
+        // 4294967295
+        vec![255, 255, 255, 255],
+        // 4294967295
+        vec![255, 255, 255, 255],
+        // 4294967295
+        vec![255, 255, 255, 255],
+    ];
+    kani::concrete_playback_run(concrete_vals, asn_set_collect_len2);
+}
